@@ -7,6 +7,7 @@ import (
 
 	"verifsim/kit"
 	"verifsim/enginesim"
+	"verifsim/facesim"
 	"verifsim/fwsim"
 	"verifsim/tablesim"
 )
@@ -25,6 +26,10 @@ func TestSim(t *testing.T) {
 	switch a.Engine {
 	case "enginesim":
 		kit.Drive(t, enginesim.Engine{}, a)
+	case "linksim":
+		kit.Drive(t, facesim.LinkEngine{}, a)
+	case "streamsim":
+		kit.Drive(t, facesim.StreamEngine{}, a)
 	case "fwsim":
 		kit.Drive(t, fwsim.Engine{}, a)
 	case "tablesim":
